@@ -861,6 +861,11 @@ func (z *E24) SetBytes(e []byte) error {
 
 // IsInSubGroup ensures GT/E24 is in correct subgroup
 func (z *E24) IsInSubGroup() bool {
+	// zero is not invertible: it is not an element of the multiplicative group (every equality
+	// checked below holds trivially for it)
+	if z.IsZero() {
+		return false
+	}
 	var a, b E24
 
 	// check z^(phi_k(p)) == 1
